@@ -161,35 +161,36 @@ fn header_invalid(b: &MBlock) -> bool {
     b.invalid.as_deref() == Some("TimestampTooOld")
 }
 
+fn orphan_rec(tree: &Tree, rec: &Received, h: &H, memo: &mut BTreeMap<[u8; 32], bool>) -> bool {
+    let k = h32(h);
+    if let Some(v) = memo.get(&k) {
+        return *v;
+    }
+    let b = tree.get(h);
+    let r = if b.number == 0 || nc_invalid(b) {
+        false
+    } else {
+        let p = tree.get(&b.parent);
+        if p.number == 0 {
+            false
+        } else if nc_invalid(p) && rec.seen.contains(&h32(&p.hash)) {
+            false
+        } else if !rec.set.contains(&h32(&p.hash)) {
+            true
+        } else {
+            orphan_rec(tree, rec, &p.hash, memo)
+        }
+    };
+    memo.insert(k, r);
+    r
+}
+
 /// expected number of blocks in the orphan pool at quiescence
 fn expected_orphans(tree: &Tree, rec: &Received) -> usize {
     let mut memo: BTreeMap<[u8; 32], bool> = BTreeMap::new();
-    fn orphan(tree: &Tree, rec: &Received, h: &H, memo: &mut BTreeMap<[u8; 32], bool>) -> bool {
-        let k = h32(h);
-        if let Some(v) = memo.get(&k) {
-            return *v;
-        }
-        let b = tree.get(h);
-        let r = if b.number == 0 || nc_invalid(b) {
-            false
-        } else {
-            let p = tree.get(&b.parent);
-            if p.number == 0 {
-                false
-            } else if nc_invalid(p) && rec.seen.contains(&h32(&p.hash)) {
-                false
-            } else if !rec.set.contains(&h32(&p.hash)) {
-                true
-            } else {
-                orphan(tree, rec, &p.hash, memo)
-            }
-        };
-        memo.insert(k, r);
-        r
-    }
     let mut n = 0;
     for h in &tree.order {
-        if rec.set.contains(&h32(h)) && orphan(tree, rec, h, &mut memo) {
+        if rec.set.contains(&h32(h)) && orphan_rec(tree, rec, h, &mut memo) {
             n += 1;
         }
     }
@@ -235,6 +236,8 @@ fn delivery_order(built: &Built, s: &Schedule) -> Vec<H> {
 /// run one schedule on a fresh node and check the oracle at every quiescent point
 pub fn run_schedule(env: &Env, built: &Built, s: &Schedule, st: &mut Stats) -> Result<RunOut, Violation> {
     let tree = &built.tree;
+    install_panic_recorder();
+    clear_panics();
     let node = Node::start(env, NodeCfg::default()).map_err(|e| Violation::new("harness:node-start", e))?;
     let order = delivery_order(built, s);
     let mut rec = Received { set: BTreeSet::new(), seen: BTreeSet::new() };
@@ -336,9 +339,46 @@ pub fn run_schedule(env: &Env, built: &Built, s: &Schedule, st: &mut Stats) -> R
         let want = expected_orphans(tree, rec);
         let got = node.chain().orphan_blocks_len();
         if want != got {
+            let mut dbg = String::new();
+            for h in &tree.order {
+                if node.chain().get_orphan_block(node.shared.store(), h).is_some() {
+                    let b = tree.get(h);
+                    dbg.push_str(&format!(
+                        " [in pool: #{} {:#x} parent #{} status {:?} ext {:?} parent_seen {} parent_invalid {:?}]",
+                        b.number,
+                        b.hash,
+                        tree.get(&b.parent).number,
+                        node.shared.get_block_status(&b.parent),
+                        snap.get_block_ext(&b.parent).map(|e| e.verified),
+                        rec.seen.contains(&h32(&b.parent)),
+                        tree.get(&b.parent).invalid
+                    ));
+                }
+            }
+            // classify: are all surplus pool blocks descendants of a block that failed?
+            let mut surplus_all_under_failed = got > want;
+            let mut memo = BTreeMap::new();
+            for h in &tree.order {
+                let in_pool = node.chain().get_orphan_block(node.shared.store(), h).is_some();
+                let expected = rec.set.contains(&h32(h)) && orphan_rec(tree, rec, h, &mut memo);
+                if in_pool && !expected {
+                    let under_failed = tree.path(&tree.get(h).parent).iter().any(|x| x.invalid.is_some());
+                    if !under_failed {
+                        surplus_all_under_failed = false;
+                    }
+                }
+                if expected && !in_pool {
+                    surplus_all_under_failed = false;
+                }
+            }
+            let sig = if surplus_all_under_failed {
+                "orphans:descendants-of-a-failed-block-held-as-orphans"
+            } else {
+                "orphans:count-mismatch"
+            };
             vfail!(
-                "orphans:count-mismatch",
-                "{where_}: orphan pool holds {got} blocks, model expects {want} received blocks with a missing ancestor"
+                sig,
+                "{where_}: orphan pool holds {got} blocks, model expects {want} received blocks with a missing ancestor;{dbg}"
             );
         }
         Ok(())
@@ -350,12 +390,26 @@ pub fn run_schedule(env: &Env, built: &Built, s: &Schedule, st: &mut Stats) -> R
             Some(b) => tree.get(b).block.clone(),
             None => env.consensus.genesis_block().clone(),
         };
-        let (btx, brx) = mpsc::channel();
-        node.deliver_async(&b, usize::MAX, btx);
-        match brx.recv_timeout(Duration::from_secs(60)) {
-            Ok(_) => Ok(()),
-            Err(_) => Err(Violation::new("harness:barrier-timeout", "barrier block callback did not fire in 60 s")),
+        // One round guarantees that everything delivered before it went through all three threads.
+        // The round's own orphan search runs *after* the barrier block is forwarded, and blocks it
+        // releases are verified after the barrier: repeat until a round changes nothing (>= 2 rounds).
+        let mut prev: Option<(usize, H)> = None;
+        for _round in 0..12 {
+            let (btx, brx) = mpsc::channel();
+            node.deliver_async(&b, usize::MAX, btx);
+            if brx.recv_timeout(Duration::from_secs(60)).is_err() {
+                // a dead chain thread is a violation; a mere time-out is inconclusive
+                node_panic_violation()?;
+                return Err(Violation::new("harness:barrier-timeout", "barrier block callback did not fire in 60 s"));
+            }
+            node_panic_violation()?;
+            let now = (node.chain().orphan_blocks_len(), node.tip_hash());
+            if prev.as_ref() == Some(&now) {
+                return Ok(());
+            }
+            prev = Some(now);
         }
+        Ok(())
     };
 
     for (i, h) in order.iter().enumerate() {
@@ -395,7 +449,11 @@ pub fn run_schedule(env: &Env, built: &Built, s: &Schedule, st: &mut Stats) -> R
         }
         let parent_stored = tree.get(&b.parent).number == 0
             || (rec.set.contains(&h32(&b.parent)) && !nc_invalid(tree.get(&b.parent)));
-        if want_sync && parent_known_valid_conn && parent_stored {
+        // The submit pipeline is the miner's: it is only offered blocks whose parent chain is fully
+        // valid (a miner builds on the node's own verified chain).  Blocks on a branch with an
+        // invalid ancestor arrive the way a peer's would, asynchronously.
+        let ancestors_valid = tree.path(&b.parent).iter().all(|x| x.invalid.is_none());
+        if want_sync && parent_known_valid_conn && parent_stored && ancestors_valid {
             if pending_async {
                 quiesce(&node, &barrier)?;
                 pending_async = false;
@@ -403,6 +461,27 @@ pub fn run_schedule(env: &Env, built: &Built, s: &Schedule, st: &mut Stats) -> R
             }
             let r = node.submit(&b.block);
             st.label("delivery:sync");
+            if matches!(&r, Err(e) if e.contains("PANIC")) {
+                let snap = node.shared.snapshot();
+                let mut dbg = String::new();
+                for a in tree.path(&b.parent).iter().rev().take(40) {
+                    if snap.get_block_header(&a.hash).is_none() {
+                        dbg.push_str(&format!(
+                            " [missing header #{} {:#x} invalid={:?} received={} status={:?}]",
+                            a.number,
+                            a.hash,
+                            a.invalid,
+                            rec.seen.contains(&h32(&a.hash)),
+                            node.shared.get_block_status(&a.hash)
+                        ));
+                    }
+                }
+                vfail!(
+                    "submit:header-verifier-panicked",
+                    "delivery {i}: submitting block #{} (parent chain fully valid and received) panicked in HeaderVerifier;{dbg}",
+                    b.number
+                );
+            }
             // a block whose parent was deleted (failed branch) is refused by the header check
             let chain_saw_it = !matches!(&r, Err(e) if e.starts_with("header:") || e.starts_with("parent"));
             if chain_saw_it {
@@ -559,11 +638,52 @@ fn prop(case: &Case, st: &mut Stats) -> Verdict {
     Ok(())
 }
 
+/// directed family: small trees dense in invalid blocks, every block delivered asynchronously in
+/// large bursts with many duplicates (several copies of a failing block in flight at once)
+pub fn dup_case_strategy() -> impl Strategy<Value = Case> {
+    let p = PlanParams {
+        min_blocks: 3,
+        max_blocks: 14,
+        fork_pct: 30,
+        tx_rate: 10,
+        invalid_pct: 35,
+        uncle_pct: 5,
+    };
+    (
+        0u8..4,
+        tree_plan_strategy(p),
+        proptest::collection::vec(
+            (
+                prop_oneof![Just(0u8), Just(1u8)],
+                proptest::collection::vec(any::<u16>(), 16),
+                proptest::collection::vec((any::<u16>(), any::<u16>()), 6..20),
+                proptest::collection::vec(any::<u8>(), 16),
+            )
+                .prop_map(|(mode, jitter, dups, sync_sel)| Schedule {
+                    mode,
+                    jitter,
+                    dups,
+                    sync_pct: 0,
+                    sync_sel,
+                    bursts: vec![40],
+                }),
+            2..=2,
+        ),
+    )
+        .prop_map(|(variant, plan, schedules)| Case {
+            variant,
+            plan,
+            schedules,
+        })
+}
+
 fn run(ctx: &Ctx) {
     ctx.shrink_iters.set(120);
     let cases = ctx.cases(800, 12000);
     let max_blocks = ctx.tier.pick(36, 90);
     ctx.run_prop("tree-x-schedules", cases, case_strategy(max_blocks), prop);
+    let cases = ctx.cases(600, 9000);
+    ctx.run_prop("duplicates-of-failing-blocks", cases, dup_case_strategy(), prop);
 }
 
 fn replay(ctx: &Ctx, _sub: &str, v: &Value) -> Verdict {
